@@ -355,4 +355,42 @@ PROPS = {
         "unproved": ["every real crossing produces an hourly sign change (scan completeness, 8 minutes)"],
         "assumes": ["the scan does not raise"],
     },
+    "C18": {
+        "level_text": "Kernel-checked (decide +kernel, exact integer arithmetic) over the location table "
+                      "REGENERATED from /repo's source text on every run: every record has a non-empty "
+                      "name, coordinates that parse and lie in range, a zone the platform resolves and a "
+                      "standard offset within 2.5 h of mean solar time; no (name, region) pair twice; "
+                      "and the lemma that such an offset puts mean-time noon within 2.5 h of 12:00.",
+        "level_note": "Translator tie: harness/gen_tables.py (splits the text as the module does; adds "
+                      "zoneinfo resolution and the standard offset per zone — tzdata is trusted). The "
+                      "parser the theorem uses is the model's recogniser, tied to re/float by the dms "
+                      "correspondence; database() is tied by the geocoder correspondence.",
+        "lean_modules": ["Astral.Props.C18"],
+        "generators": ["gen_tables"],
+        "theorems": ["Astral.C18.builtin_ok", "Astral.C18.builtin_nodup", "Astral.C18.noon_window"],
+        "groups": [G("corr_geo", "dms", 3000, 40000, exhaustive_thorough=["dms_exhaustive"]),
+                   G("corr_geo", "geocoder", 1500, 40000)],
+        "unproved": ["the computed (NOAA) noon in [09:30, 14:30] — follows from noon_window plus the "
+                     "equation-of-time bound, which is not proved"],
+        "assumes": ["tzdata as installed", "gen_tables.py extracts the rows the module would parse"],
+        "trusted_extra": ["harness/gen_tables.py (data translator) and tzdata"],
+    },
+    "C19": {
+        "level_text": "Kernel-checked theorems: every Location method's call (a first-order description: "
+                      "target function, coordinates, observer elevation, date, depression, zone, "
+                      "direction) equals a specification written by rule from the property text, for "
+                      "every state and argument combination; the depression setter agrees across names, "
+                      "enum and numbers; the command line makes the one sun.sun call for the parsed "
+                      "arguments with the right labels. The model is tied to location.py/__main__.py by "
+                      "recorders that capture the real calls and return values.",
+        "level_note": "Delegation only: what the delegated functions compute is C01–C14. Naive datetimes "
+                      "of the solar-angle methods are converted by the harness's own expectation.",
+        "lean_modules": ["Astral.Props.C19"],
+        "theorems": ["Astral.C19.location_delegates", "Astral.C19.depression_setter",
+                     "Astral.C19.cli_output"],
+        "groups": [G("corr_loc", "location", 3000, 60000), G("corr_loc", "cli", 300, 5000),
+                   G("corr_geo", "setters", 1200, 20000)],
+        "unproved": [],
+        "assumes": ["argparse and strftime behave as documented"],
+    },
 }
